@@ -264,7 +264,7 @@ def generate(rng, tier, run):
         elif x < 0.22 and docgen.base_kind(recipes[ci]) in ('K1', 'K2'):
             outer = rng.choice(['a \\nest{x} b', '\\mv{a{b}c}\\nest{y}\\mv{d{e}f}', '\\mb{\\nest{z}} \\mw{q{r}}',
                                 doc + '\\nest{n}' + rng.choice(pool)])
-            ops.append(['parse_nested', ci, outer, rng.choice(pool), tolerant])
+            ops.append(['parse_nested', ci, outer, rng.choice(pool) if rng.random() < 0.75 else '@same', tolerant])
         elif x < 0.30:
             spec = rng.choice(docgen.STD_ARG_TYPES)
             kw = rng.choice([{}, {}, {'return_full_node_list': True}, {'allow_pre_space': False},
@@ -758,6 +758,21 @@ def do_op(ctx, kind, op, clock=None):
         docgen.NESTED['inner'] = inner
         docgen.NESTED['results'] = []
         docgen.NESTED['parse_fn'] = lambda c, s: parse_general(ctx, kind, s, tolerant, clock)
+        docgen.NESTED['busy'] = False
+
+        def same_walker(w):
+            from pylatexenc.latexnodes.parsers import LatexGeneralNodesParser
+            saved = list(w.sim_clock)
+            w.sim_clock[0] = 0
+
+            def go():
+                nodes, delta = w.parse_content(LatexGeneralNodesParser())
+                return D.Dumper().result(nodes, delta)
+            try:
+                return _guarded(go)
+            finally:
+                w.sim_clock[0] = saved[0]
+        docgen.NESTED['same_fn'] = same_walker
         try:
             res = parse_general(ctx, kind, outer, tolerant, clock)
             return {'outer': res, 'nested': list(docgen.NESTED['results'])}
@@ -1173,7 +1188,7 @@ def run_program(program, env):
             wanted.append((rec['recipe'], _fresh_request(rec['request'])))
             if rec['op'] == 'parse_nested':
                 op = program['ops'][i]
-                wanted.append((rec['recipe'], ['parse', 0, op[3], op[4], ['general']]))
+                wanted.append((rec['recipe'], ['parse', 0, op[2] if op[3] == '@same' else op[3], op[4], ['general']]))
     _prefetch(env, wanted, stats)
     for i, rec in enumerate(trace):
         if rec.get('skipped') or rec['op'] in ('mkctx', 'noise', 'km_set'):
@@ -1242,7 +1257,7 @@ def run_program(program, env):
             break
         if rec['op'] == 'parse_nested' and isinstance(rec['result'], dict):
             # each re-entrant inner parse must also equal a plain fresh parse of the inner document
-            inner_req = ['parse', 0, op[3], op[4], ['general']]
+            inner_req = ['parse', 0, op[2] if op[3] == '@same' else op[3], op[4], ['general']]
             ia, _ib = _references(env, rec['recipe'], inner_req, stats)
             for n in rec['result'].get('nested', []):
                 stats.inc('compared-parses')
